@@ -221,6 +221,10 @@ func batchedMutations.Commit
   modifies map(b.kvStore.m.m)
   loop 1 invariant held(b.Mutex) && held(b.kvStore.RWMutex) && unlocked(b.kvStore.m.RWMutex)
   loop 2 invariant held(b.Mutex) && held(b.kvStore.RWMutex) && unlocked(b.kvStore.m.RWMutex)
+  -- every pending delete is applied - whether or not the batch has pending sets: after a successful Commit no key with a
+  -- pending delete is in the store (under the view's realm)
+  loop 2 invariant forall k Str :: visited(k, 2) ==> !has(b.kvStore.m.m, cat(str(b.kvStore.realm), k))
+  ensures !aload(b.closed) ==> forall k Str :: has(b.deleteOperations, k) ==> !has(b.kvStore.m.m, cat(str(b.kvStore.realm), k))
   ensures aload(b.closed) ==> r0 == kvstore.ErrStoreClosed && (forall k Str :: (has(b.kvStore.m.m, k) <==> old(has(b.kvStore.m.m, k))) && b.kvStore.m.m[k] == old(b.kvStore.m.m[k]))
   ensures !aload(b.closed) ==> r0 == nil
   ensures unlocked(b.Mutex) && unlocked(b.kvStore.RWMutex) && unlocked(b.kvStore.m.RWMutex)
